@@ -527,7 +527,7 @@ func (s *multiSim) gen(r *core.Rand) *multiStep {
 	}
 	switch r.Weighted(w) {
 	case 0:
-		return &multiStep{Op: "set", S: r.Intn(len(s.keys)), K: core.Hex(genKey(r, 2)), V: core.Hex(append([]byte{byte(s.stepNo), byte(s.stepNo >> 8)}, r.Bytes(r.Intn(3))...))}
+		return &multiStep{Op: "set", S: r.Intn(len(s.keys)), K: core.Hex(genKey(r, 2)), V: genVal(r, s.stepNo, 3)}
 	case 1:
 		st := &multiStep{Op: "del", S: r.Intn(len(s.keys))}
 		if p := sortedPairs(s.work[st.S]); len(p) > 0 && r.Chance(0.8) {
